@@ -152,18 +152,17 @@ class Ctx(object):
         self.close()
         os.makedirs(EVIDENCE, exist_ok=True)
         unknown = []
-        dump = os.environ.get("BTMC_DUMP_SIGS")  # authoring-time helper (tools/gen_*_witnesses.py)
-        if dump:
-            with open(dump, "a") as f:
-                for v in self.raw_violations:
-                    if v.get("sig"):
-                        f.write(str(v["sig"]) + "\n")
         for v in self.raw_violations:
             fid = findings.match(v)
             if fid is not None:
                 self.known_hits[fid] = self.known_hits.get(fid, 0) + 1
             else:
                 unknown.append(v)
+        dump = os.environ.get("BTMC_DUMP_SIGS")  # authoring-time helper (tools/gen_witnesses.py)
+        if dump:
+            with open(dump, "a") as f:
+                for v in unknown:
+                    f.write(json.dumps({"sig": v.get("sig"), "rule": v.get("rule")}) + "\n")
         lines = []
         per_rule = {}
         written = 0
